@@ -33,7 +33,7 @@ typedef struct TaskGroup TaskGroup;
 enum { T_QUEUED = 1, T_RUNNING, T_DONE };
 enum { F_RUN = 1, F_TASKWAIT, F_ENDBARRIER, F_BARRIER, F_BARRIER_LAST, F_JOIN, F_LOCK, F_TASKGROUP, F_DONE };
 
-struct TaskGroup { TaskGroup *up; int unfinished; };
+struct TaskGroup { TaskGroup *up; int unfinished; uintptr_t *reductions; };
 
 struct Task {
     void (*fn)(void *);
@@ -140,7 +140,8 @@ const char *g_probe_name[PR__N] = {
     "splits_diff_thread","splits_overlap",
     "dist_threads_max","km_rounds","merges","dp_steps","km_nodes",
     "fs_reads","fs_short_reads","fs_read_faults","fs_open_faults","fs_stat_faults","fs_writes","fs_write_faults",
-    "clock_reads","allocs","alloc_fails","junk_bytes"
+    "clock_reads","allocs","alloc_fails","junk_bytes",
+    "c10_nodes_checked_in_output"
 };
 
 #define STACK_SIZE ((size_t)64 << 20)
@@ -248,10 +249,13 @@ static bool is_descendant(Task *t, Task *anc)
     return false;
 }
 
+/* which queued tasks a waiting task may start: at a taskwait its children (or, as a world parameter, any
+   descendant); at the end of a taskgroup any descendant, because the group also waits for grandchildren */
+static int g_wait_desc;
 static bool eligible_for_wait(Task *q, Task *waiter)
 {
     if (q->parent == waiter) return true;
-    return W.tw_descendants && is_descendant(q, waiter);
+    return (W.tw_descendants || g_wait_desc) && is_descendant(q, waiter);
 }
 
 static bool has_eligible(Team *tm, Task *waiter)
@@ -259,6 +263,11 @@ static bool has_eligible(Team *tm, Task *waiter)
     if (!waiter) return tm->qlen > 0;
     for (Task *q = tm->qhead; q; q = q->qnext) if (eligible_for_wait(q, waiter)) return true;
     return false;
+}
+
+static bool has_eligible_desc(Team *tm, Task *waiter)
+{
+    g_wait_desc = 1; bool r = has_eligible(tm, waiter); g_wait_desc = 0; return r;
 }
 
 static void q_push(Team *tm, Task *t)
@@ -295,7 +304,7 @@ static bool fiber_can_run(Fiber *f)
     switch (f->state) {
     case F_RUN: return true;
     case F_TASKWAIT: return f->wait_task->unfinished_children == 0 || has_eligible(f->wait_task->team, f->wait_task);
-    case F_TASKGROUP: return f->wait_tg->unfinished == 0 || has_eligible(f->wait_task->team, f->wait_task);
+    case F_TASKGROUP: return f->wait_tg->unfinished == 0 || has_eligible_desc(f->wait_task->team, f->wait_task);
     case F_ENDBARRIER: { Team *tm = f->wait_team; return tm->qlen > 0 || (tm->outstanding == 0 && tm->arrived == tm->n); }
     case F_BARRIER: { Team *tm = f->wait_team; return tm->bar_gen != f->wait_gen || tm->qlen > 0; }
     case F_BARRIER_LAST: { Team *tm = f->wait_team; return tm->outstanding == 0 || tm->qlen > 0; }
@@ -386,18 +395,18 @@ static void *copy_args(Task *t, void *data, void (*cpyfn)(void *, void *), long 
     return a;
 }
 
-void GOMP_task(void (*fn)(void *), void *data, void (*cpyfn)(void *, void *), long arg_size, long arg_align,
-               bool if_clause, unsigned flags, void **depend, int priority, void *detach)
+/* one explicit task; range != NULL (taskloop): the first two longs of the copied argument block are the
+   chunk's start and end, and the block is always copied */
+static void spawn_task(void (*fn)(void *), void *data, void (*cpyfn)(void *, void *), long arg_size, long arg_align,
+                       bool if_clause, unsigned flags, const long *range)
 {
-    (void)depend; (void)priority; (void)detach;
-    if (flags & (8u | 8192u)) sim_fatal("UNSUPPORTED", "task depend/detach clause (flags=%u)", flags);
     Ctx *cx = g_cur->ctx;
     Team *tm = cx->team;
     Task *parent = cx->cur;
     Task *t = task_new(tm, parent, 1);
     t->fn = fn;
     t->final_ = (flags & 2u) || parent->final_;
-    t->tg = parent->cur_tg;
+    t->tg = parent->cur_tg ? parent->cur_tg : parent->tg;     /* a task belongs to the innermost enclosing taskgroup of its ancestors */
     parent->unfinished_children++;
     if (t->tg) t->tg->unfinished++;
     if (tm) tm->outstanding++;
@@ -406,7 +415,8 @@ void GOMP_task(void (*fn)(void *), void *data, void (*cpyfn)(void *, void *), lo
     unsigned defer = deferable ? sim_decide(DK_DEFER, 2, W.p_defer) : 0;
     if (!defer) {
         g_probe[PR_TASKS_UNDEFERRED]++;
-        if (cpyfn) t->arg = copy_args(t, data, cpyfn, arg_size, arg_align); else t->arg = data;
+        if (cpyfn || range) t->arg = copy_args(t, data, cpyfn, arg_size, arg_align); else t->arg = data;
+        if (range) { ((long *)t->arg)[0] = range[0]; ((long *)t->arg)[1] = range[1]; }
         Task *saved = cx->cur;
         t->state = T_RUNNING;
         cx->cur = t;
@@ -419,9 +429,18 @@ void GOMP_task(void (*fn)(void *), void *data, void (*cpyfn)(void *, void *), lo
     }
     g_probe[PR_TASKS_DEFERRED]++;
     t->arg = copy_args(t, data, cpyfn, arg_size, arg_align);
+    if (range) { ((long *)t->arg)[0] = range[0]; ((long *)t->arg)[1] = range[1]; }
     t->state = T_QUEUED;
     q_push(tm, t);
     schedule(W.p_switch);
+}
+
+void GOMP_task(void (*fn)(void *), void *data, void (*cpyfn)(void *, void *), long arg_size, long arg_align,
+               bool if_clause, unsigned flags, void **depend, int priority, void *detach)
+{
+    (void)depend; (void)priority; (void)detach;
+    if (flags & (8u | 8192u)) sim_fatal("UNSUPPORTED", "task depend/detach clause (flags=%u)", flags);
+    spawn_task(fn, data, cpyfn, arg_size, arg_align, if_clause, flags, NULL);
 }
 
 void GOMP_taskwait(void)
@@ -460,11 +479,138 @@ void GOMP_taskgroup_end(void)
         schedule(W.p_switch);
         g_cur->state = F_RUN;
         if (g->unfinished == 0) break;
+        g_wait_desc = 1;
         Task *e = pick_task(t->team, t);
+        g_wait_desc = 0;
         if (e) { q_remove(t->team, e); run_task_here(e); }
     }
     t->cur_tg = g->up;
     sim_xfree(g);
+}
+
+/* ---- task reductions (libgomp ABI: the descriptor array d[] is laid out by the compiler:
+   d[0] count, d[1] bytes per thread, d[2] alignment in / base of the per-thread copies out, d[3] allocator,
+   d[4] next descriptor, d[5] runtime use, d[6] end of the copies, then per reduction (original address,
+   offset in the per-thread chunk, back pointer).  The compiler-generated code initialises a thread's copy on
+   first use, and merges all copies into the originals after the taskgroup ended. */
+static void reduction_register(uintptr_t *data, uintptr_t *old, unsigned nthreads)
+{
+    uintptr_t *d = data;
+    for (;;) {
+        size_t sz = (size_t)d[1] * nthreads;
+        size_t al = d[2] ? (size_t)d[2] : 16;
+        char *raw = sim_xcalloc(1, sz + al + sizeof(void *));
+        char *a = (char *)(((uintptr_t)raw + sizeof(void *) + al - 1) & ~((uintptr_t)al - 1));
+        ((void **)a)[-1] = raw;
+        d[2] = (uintptr_t)a;
+        d[6] = d[2] + sz;
+        d[5] = 0;
+        for (size_t j = 0; j < d[0]; j++) d[7 + 3 * j + 2] = (uintptr_t)d;
+        if (d[4] == 0) { d[4] = (uintptr_t)old; break; }
+        d = (uintptr_t *)d[4];
+    }
+    data[5] = 1;                       /* head of a registration (libgomp keeps its hash table here) */
+}
+
+void GOMP_taskgroup_reduction_register(uintptr_t *data)
+{
+    Task *t = cur_task();
+    Team *tm = g_cur->ctx->team;
+    if (!t->cur_tg) sim_fatal("UNSUPPORTED", "task reduction registered outside a taskgroup");
+    reduction_register(data, t->cur_tg->reductions, tm ? (unsigned)tm->n : 1u);
+    t->cur_tg->reductions = data;
+}
+
+void GOMP_taskgroup_reduction_unregister(uintptr_t *data)
+{
+    uintptr_t *d = data;
+    data[5] = 0;
+    do {
+        if (d[2]) sim_xfree(((void **)d[2])[-1]);
+        d[2] = 0;
+        d = (uintptr_t *)d[4];
+    } while (d && !d[5]);              /* stops at the head of an outer registration: that one is unregistered by its own construct */
+}
+
+void GOMP_task_reduction_remap(size_t cnt, size_t cntorig, void **ptrs)
+{
+    Task *t = cur_task();
+    unsigned id = (unsigned)g_cur->ctx->tid;
+    uintptr_t *data = NULL;
+    for (TaskGroup *g = t->cur_tg ? t->cur_tg : t->tg; g && !data; g = g->up) data = g->reductions;
+    if (!data) sim_fatal("UNSUPPORTED", "GOMP_task_reduction_remap without a registered task reduction");
+    for (size_t i = 0; i < cnt; i++) {
+        uintptr_t *d, *hit = NULL, *hd = NULL;
+        for (d = data; d && !hit; d = (uintptr_t *)d[4])
+            for (size_t j = 0; j < d[0]; j++) if (d[7 + 3 * j] == (uintptr_t)ptrs[i]) { hit = d + 7 + 3 * j; hd = d; break; }
+        if (hit) {
+            ptrs[i] = (void *)(hd[2] + (uintptr_t)id * hd[1] + hit[1]);
+            if (i < cntorig) ptrs[cnt + i] = (void *)hit[0];
+            continue;
+        }
+        for (d = data; d; d = (uintptr_t *)d[4]) if ((uintptr_t)ptrs[i] >= d[2] && (uintptr_t)ptrs[i] < d[6]) break;
+        if (!d) sim_fatal("UNSUPPORTED", "task reduction remap: no matching reduction for %p", ptrs[i]);
+        uintptr_t off = ((uintptr_t)ptrs[i] - d[2]) % d[1];
+        ptrs[i] = (void *)(d[2] + (uintptr_t)id * d[1] + off);
+        if (i < cntorig)
+            for (size_t j = 0; j < d[0]; j++) if (d[7 + 3 * j + 1] == off) { ptrs[cnt + i] = (void *)d[7 + 3 * j]; break; }
+    }
+}
+
+/* taskloop: the iterations are cut into num_tasks chunks (team size by default), one explicit task per chunk,
+   inside an implicit taskgroup unless nogroup was given */
+void GOMP_taskloop(void (*fn)(void *), void *data, void (*cpyfn)(void *, void *), long arg_size, long arg_align,
+                   unsigned flags, unsigned long num_tasks, int priority, long start, long end, long step)
+{
+    (void)priority;
+    Team *tm = g_cur->ctx->team;
+    unsigned long n;
+    if ((flags & 256u) ? start >= end : start <= end) {
+        /* no iterations: tell the caller's merge code that no reduction was registered (libgomp does the same) */
+        if ((flags & (2048u | 4096u)) == 4096u) { struct head { long t1, t2; uintptr_t *ptr; }; ((struct head *)data)->ptr[2] = 0; }
+        return;
+    }
+    if (flags & 256u) n = (unsigned long)(end - start + step - 1) / (unsigned long)step;
+    else n = (unsigned long)(start - end - step - 1) / (unsigned long)(-step);
+    long task_step = step;
+    unsigned long nfirst = n;
+    if (flags & 512u) {              /* grainsize */
+        unsigned long grainsize = num_tasks;
+        num_tasks = n / grainsize;
+        if (num_tasks <= 1) { num_tasks = 1; task_step = end - start; }
+        else if (num_tasks >= grainsize) {
+            unsigned long mul = num_tasks * grainsize;
+            task_step = (long)grainsize * step;
+            if (mul != n) { task_step += step; nfirst = n - mul - 1; }
+        } else {
+            unsigned long div = n / num_tasks, mod = n % num_tasks;
+            task_step = (long)div * step;
+            if (mod) { task_step += step; nfirst = mod - 1; }
+        }
+    } else {
+        if (num_tasks == 0) num_tasks = tm ? (unsigned long)tm->n : 1;
+        if (num_tasks >= n) num_tasks = n;
+        else {
+            unsigned long div = n / num_tasks, mod = n % num_tasks;
+            task_step = (long)div * step;
+            if (mod) { task_step += step; nfirst = mod - 1; }
+        }
+    }
+    if (!(flags & 2048u)) {          /* not nogroup */
+        GOMP_taskgroup_start();
+        if (flags & 4096u) {         /* reduction: the descriptor pointer follows the two range slots */
+            struct head { long t1, t2; uintptr_t *ptr; };
+            GOMP_taskgroup_reduction_register(((struct head *)data)->ptr);
+        }
+    }
+    bool if_clause = (flags & 1024u) != 0;
+    for (unsigned long i = 0; i < num_tasks; i++) {
+        long range[2];
+        range[0] = start; start += task_step; range[1] = start;
+        if (i == nfirst) task_step -= step;
+        spawn_task(fn, data, cpyfn, arg_size, arg_align, if_clause, flags & 2u, range);
+    }
+    if (!(flags & 2048u)) GOMP_taskgroup_end();
 }
 
 /* ------------------------------------------------------------------ parallel regions */
